@@ -144,7 +144,7 @@ Programs ==
      {Counter(s, n, r, j, d) : s \in {"flat", "nested"}, n \in Ns, r \in Reps, j \in {"wg", "chan"}, d \in BOOLEAN}
 \cup {FanIn(n, r, c, TRUE) : n \in Ns, r \in Reps, c \in {1, 2}}
 \cup {Pipe(n, r, c, FALSE) : n \in Ns, r \in Reps, c \in {1, 2}}
-\cup {Handoff(r, d) : r \in Reps, d \in BOOLEAN}
+\cup {Handoff(r, d) : r \in Reps \cap (1..4), d \in BOOLEAN}      \* S holds 2r decimal digits
 
 Cases == {p \in Programs : p.fam \in Fams}
 
